@@ -64,10 +64,8 @@ def e3_plan(ctx):
             plan.append(("H5", kind, "line", 1, 6))
             for h in ("H10", "H11", "H13", "H14", "H15"):
                 plan.append((h, kind, "line", 1, 2))
-            if kind in spaces.TM:  # under cache pressure (140 > functools.lru_cache's default 128): the helpers only TM calls, and the predictors
-                plan.append(("H14P140", kind, "line", 1, 8))
-            if kind in ("PL", "TMF"):
-                plan.append(("H15P140", kind, "line", 1, 12))
+            if kind in spaces.TM:  # under cache pressure (300 filler calls > a 256-entry memo): the helpers only TM calls
+                plan.append(("H14P300", kind, "line", 1, 8))
             plan.append(("H12", kind, "line", 1, 1))
             plan.append(("H12", kind, "opcode", 1, 2))
     return plan
@@ -108,7 +106,7 @@ def run_e3_unit(unit, ctx):
     return acc
 
 
-COLD_QUICK = ("H1", "H3", "H4", "H8", "H10", "H12", "H13", "H14", "H15")
+COLD_QUICK = ("H1", "H3", "H8", "H12", "H13", "H14")  # thorough: all fifteen
 
 
 def _coldrun(args):
